@@ -37,6 +37,7 @@ type e2eCase struct {
 	Script  string `json:"script"` // ok | error | trailers-only | cancel | quiet (header sent, then parked until the caller has read it)
 	Msgs    int    `json:"msgs"`
 	MsgSeed int64  `json:"msg_seed"`
+	confirm bool   // second run of a timing verdict (self-confirmation)
 }
 
 type e2ePlan struct {
@@ -58,6 +59,7 @@ type e2eWorld struct {
 	routers   map[string]routerLike
 	servers   []*grpc.Server
 	childConn map[int]*grpc.ClientConn
+	heldBack  int // confirmed header-held-back verdicts (each costs two watchdog waits)
 }
 
 func methodByFullName(full string) protoreflect.MethodDescriptor {
@@ -289,6 +291,15 @@ func (w *e2eWorld) runE2E(mon *lib.Monitor, e entry, c e2eCase) error {
 			case <-time.After(4 * time.Second):
 				close(p.gate)
 				gotHeader = <-hc
+				if !c.confirm {
+					// a timing verdict: run the case once more and report only if it reproduces
+					cancel()
+					mon.Count("quiet: header late once, re-run")
+					c2 := c
+					c2.confirm = true
+					return w.runE2E(mon, e, c2)
+				}
+				w.heldBack++
 				viol("header-held-back", "the child has sent its stream header and is quiet: the header must reach the caller now, not with the first message", "Header() returns the child's header while the child is parked", "Header() returned only after the child was released (4s)")
 			}
 		} else {
@@ -403,7 +414,11 @@ func runE2ECases(f lib.Flags, res *lib.Result) {
 			}
 			for r := 0; r < reps; r++ {
 				for _, s := range scripts {
-					c := e2eCase{"e2e", e.Pkg, e.Router, string(md.Name()), s.name, s.script, s.msgs + r, rng.Int63() >> 12}
+					if s.script == "quiet" && w.heldBack >= 3 {
+						mon.Count("quiet: skipped after 3 confirmed held-back headers")
+						continue
+					}
+					c := e2eCase{"e2e", e.Pkg, e.Router, string(md.Name()), s.name, s.script, s.msgs + r, rng.Int63() >> 12, false}
 					var rerr error
 					panicked, msg := lib.Catch(func() { rerr = w.runE2E(mon, e, c) })
 					if panicked {
